@@ -12,7 +12,7 @@ from simkit.tape import digest_of
 from simkit import vclock
 
 ID = "C10"
-RUNS = {"quick": 200_000, "thorough": 5_000_000}
+RUNS = {"quick": 160_000, "thorough": 5_000_000}
 SIM_TIME_UNIT = "status events delivered"
 RULE = (
     "each run = 1..4 simulated workers, each emitting a script of status events for 1..3 test ids drawn from a "
